@@ -581,7 +581,7 @@ Definition a_missing (e : option aentry) : bool :=
   | None => true
   end.
 Definition a_latest (ign : bool) (e : option aentry) : option bytes :=
-  match a_tag_of s_latest e with
+  match a_tag_of tag_latest e with
   | Some v => Some v
   | None => option_map fst (max_by_parsed (candidates ign (a_versions_of e)))
   end.
